@@ -613,12 +613,12 @@ def run(ctx):
 
 CLAIM = {
     'technique': 'symbolic linear extent tiling of the hash_update arguments (flow-sensitive linear forms over the '
-                 'header base, digest location, lead size, header length) + verdict gate + compare-primitive check',
+                 'header base, digest location, lead size, header length) + verdict gate + compare-primitive check, full-length identifier comparison (the one header part the checksum replaces by a constant)',
     'text': 'static analysis: decides C06-a..d - reader and writer hash exactly [0,D) u [L,L+N) of the header (first '
             'five bytes constant magic) into the object the gate finalises, L = D + digest_size from the lead cursor '
             'arithmetic, the stored digest is taken from / stored to [D,L), the gate compares digest_size bytes with '
             'memcmp and every success exit lies on its ==0 / >=1 edge. Decides the property up to hash strength; '
-            'nothing is executed.',
+            'nothing is executed. C06-e: the 5-byte identifier is compared in full against the identifier literals.',
     'note': 'trusted: clang 14 front end; linear forms over syntactic access paths (two different paths are assumed '
             'not to alias); zrealloc/memcpy semantics',
 }
